@@ -294,6 +294,14 @@ fn ladder_doc(kind: usize, depth: usize) -> Case {
 
 fn nested_docs() -> Vec<Case> {
     let mut out = vec![];
+    // integers at and around the borders of i64 / u64 / i32, in every position an integer may take
+    for lit in ["9223372036854775807", "9223372036854775808", "-9223372036854775808", "-9223372036854775809", "--9223372036854775808", "---9223372036854775808", "18446744073709551615", "18446744073709551616", "0x7fffffffffffffff", "0x8000000000000000", "-0x8000000000000000", "-0x8000000000000001", "0xffffffffffffffff", "0x10000000000000000", "-0x0000000000000000008000000000000000", "2147483648", "-2147483649", "4294967296", "1.0e-9223372036854775808", "1e9223372036854775808", "1e-0x8000000000000000"] {
+        out.push(Case { text: format!("const i64 C = {}", lit), origin: format!("integer border {} as constant", lit) });
+        out.push(Case { text: format!("enum E {{ A = {} }}", lit), origin: format!("integer border {} as enum value", lit) });
+        out.push(Case { text: format!("struct S {{ 1: i64 f = {}, 2: list<i64> l = [{}, 1], 3: map<i64, i64> m = {{{}: {}}} }}", lit, lit, lit, lit), origin: format!("integer border {} in defaults", lit) });
+        out.push(Case { text: format!("struct S {{ {}: i64 f }}", lit), origin: format!("integer border {} as field id", lit) });
+        out.push(Case { text: format!("service X {{ void m(1: i64 a = {}) throws ({}: E e) }}", lit, lit), origin: format!("integer border {} in a function", lit) });
+    }
     for depth in [1usize, 8, 32, 48, 60, 63, 64] {
         // types
         let mut t = String::from("i32");
